@@ -243,6 +243,7 @@ def mk_bin(op, a, b):
 # ------------------------------------------------------------------ call normalisation
 
 _ERASE = [
+    r"^std::cell::RefCell::<.*>::borrow(_mut)?$",  # the cell is transparent for values (double borrows: BORROW-SCOPE)
     r"^<.* as std::ops::Deref>::deref$",
     r"^<.* as std::ops::DerefMut>::deref_mut$",
     r"^<.* as std::convert::AsRef<.*>>::as_ref$",
@@ -894,6 +895,42 @@ class _AnyField:
 _ANY = _AnyField()
 
 
+def _address_of_arg_field(v):
+    """`&arg.f.g` / `&mut arg.f.g`: a reference to a field path of an argument denotes the same place whatever is
+    written to it (the value behind it is read through the heap, not through this expression)."""
+    if not isinstance(v, tuple) or v[0] != "ref":
+        return False
+    x = v[1]
+    n = 0
+    while isinstance(x, tuple) and x[0] == "field":
+        x = x[1]
+        n += 1
+    return n > 0 and isinstance(x, tuple) and x[0] == "arg"
+
+
+def _inline_field_path(v, facts):
+    """arg.f.g...: only field steps, and every field of that name in the crate is stored inline (no reference, box or
+    raw pointer that could be re-seated)."""
+    names = []
+    x = v
+    while isinstance(x, tuple) and x[0] == "field":
+        names.append(x[2])
+        x = x[1]
+    if not names or not (isinstance(x, tuple) and x[0] == "arg"):
+        return False
+    ptr = getattr(facts, "_ptr_fields", None)
+    if ptr is None:
+        ptr = set()
+        for a in facts.raw.get("adts", []):
+            for vr in a.get("variants", []):
+                for f in vr.get("fields", []):
+                    ty = strip_lt(f.get("ty", ""))
+                    if ty.startswith(("&", "*", "std::boxed::Box", "std::rc::", "std::sync::Arc")):
+                        ptr.add(f["name"])
+        facts._ptr_fields = ptr
+    return not any(n in ptr for n in names)
+
+
 def _stable_expr(v, frozen, depth=0):
     """An expression over the arguments that cannot change during the function: fields that are never written after
     construction, their lengths, constants, and +/- of those."""
@@ -1002,15 +1039,88 @@ class Walker:
                         v = se.local_value(l)
                     except Exception:
                         continue
-                    if _stable_arg(v) or (self.facts is not None and _stable_expr(v, self.facts.frozen_fields())):
+                    if _stable_arg(v) or (self.facts is not None and _stable_expr(v, self.facts.frozen_fields())) or _address_of_arg_field(v):
+                        env[l] = v
+                    elif strip_lt(self.body.locals[l]["ty"]).startswith("&") and self.facts is not None and _inline_field_path(v, self.facts):
+                        # a reference to a field path that goes through no pointer: the same place whatever is stored
+                        # in it (its contents are read through the heap)
                         env[l] = v
                     elif self._stable_in_region(v, l, se, start_bb):
                         env[l] = v
         env.update(self.init_env)
+        if start_bb != 0:
+            # a value chosen before the loop by a test of something that does not change (`let c = if flag { Some(x) }
+            # else { None };`): the turn is analysed once per side of that test, with the test as a guard
+            for atom, cases in self._phi_splits(se, start_bb, env):
+                for outcome, vals in cases:
+                    env2 = dict(env)
+                    env2.update(vals)
+                    st = {"env": env2, "heap": {}, "known": {atom: outcome}, "epoch": 0, "subst": {}}
+                    p = Path()
+                    p.guards.append((atom, outcome))
+                    self._go(start_bb, st, p, {})
+                return self.paths
         st = {"env": env, "heap": {}, "known": {}, "epoch": 0, "subst": {}}
         p = Path()
         self._go(start_bb, st, p, {})
         return self.paths
+
+    def _phi_splits(self, se, start_bb, env):
+        from .dom import dominating_guards
+        region = self.body.natural_loops().get(start_bb)
+        if region is None or self.facts is None:
+            return []
+        by_atom = {}
+        for l in range(self.body.argc + 1, len(self.body.locals)):
+            ds = se.defs.get(l, [])
+            if l in env or len(ds) != 2 or any(k != "stmt" or bi in region for k, bi, si in ds) or l in se.mut_borrowed:
+                continue
+            if not self.body.locals[l].get("user"):
+                continue
+            gsets = []
+            for k, bi, si in ds:
+                gsets.append({(a, o): s for a, o, s in dominating_guards(self.body, bi, se) if o in (True, False)})
+            found = None
+            for (a, o), s in gsets[0].items():
+                if (a, not o) in gsets[1] and self._unchanging_test(se, s):
+                    found = (a, o)
+                    break
+            if found is None:
+                continue
+            a, o = found
+            try:
+                v0 = se.ev.rvalue(self.body.blocks[ds[0][1]]["stmts"][ds[0][2]]["rv"], se.local_value)
+                v1 = se.ev.rvalue(self.body.blocks[ds[1][1]]["stmts"][ds[1][2]]["rv"], se.local_value)
+            except Exception:
+                continue
+            by_atom.setdefault(a, {True: {}, False: {}})
+            by_atom[a][o][l] = v0
+            by_atom[a][not o][l] = v1
+        out = []
+        for a, sides in by_atom.items():
+            out.append((a, [(True, sides[True]), (False, sides[False])]))
+            break  # one test is enough for the idiom; several independent ones would multiply the cases
+        return out
+
+    def _unchanging_test(self, se, switch_bb):
+        """the switch tests the result of a call to a function of the crate that writes nothing, on a frozen field of
+        an argument (a flag accessor)"""
+        t = self.body.blocks[switch_bb]["term"]
+        if t["k"] != "switch" or t["op"].get("k") not in ("copy", "move") or t["op"]["place"]["p"]:
+            return False
+        ds = se.defs.get(t["op"]["place"]["l"], [])
+        if len(ds) != 1 or ds[0][0] != "call":
+            return False
+        ct = self.body.blocks[ds[0][1]]["term"]
+        d_, rr_, fn_ = callee(ct)
+        if rr_ is None or not fn_.get("res_local", fn_.get("local")) or (self.impure is not None and self.impure(rr_, ct)):
+            return False
+        try:
+            args = [se.operand(a) for a in ct["args"]]
+        except Exception:
+            return False
+        fr = self.facts.frozen_fields()
+        return all(_stable_arg(a) or _stable_expr(a, fr) or (a[0] == "ref" and (_stable_arg(a[1]) or _stable_expr(a[1], fr))) for a in args)
 
     def _get(self, st):
         env = st["env"]
